@@ -13,6 +13,7 @@ import tempfile
 
 from vcheck import Case
 from props import c05_util as U
+from props import c05_skel as SK
 
 try:
     import numpy as np
@@ -25,31 +26,48 @@ GEN_UNITS = []
 COQ_TARGETS = ["Props/C05.vo", "Model/Harness.vo"]
 THEOREM_FILES = ["Props/C05.v"]
 COQ_IMPORTS = ("From Coq Require Import List Arith Bool.\n"
-               "From PV Require Import Model.C05Store.\n")
-RULE = ("one case per (public operation, parameter class, shape): operations enumerated from dir() of tensor, sptensor, "
+               "From PV Require Import Model.C05Store Model.C05View.\nImport ListNotations.\n")
+RULE = ("one case per (public operation, parameter class, shape[, memory layout]): operations enumerated from dir() of tensor, sptensor, "
         "ktensor, ttensor, tenmat, sptenmat, sumtensor, pyttb_utils and the pyttb top level (unlisted name = failing case); "
-        "shapes (2,3,4), (3,1,2), (2,2,2) (+ (3,4), (2,3,2,2) and seeded random parameters in thorough); operands built fresh "
-        "from python lists; non-trivial = the table entry returns or updates arrays (kind pure / inplace / nocopy, not scalar / "
-        "property / attribute) and its operands hold at least one non-empty array; distinct = distinct (op, parameter class, "
-        "shape, seed)")
-CORRESPONDENCE_ONLY = ["disjointness of result and operand buffers per (operation, parameter class): measured with "
-                       "np.shares_memory + cross-writes, not proved for all inputs"]
+        "shapes (2,3,4), (3,1,2), (2,2,2) (+ (3,4), (2,3,2,2), (4,1,3) and seeded random parameters in thorough); operands built fresh "
+        "from python lists; every pure / in-place / no-copy row is repeated with all caller-chosen arrays (bare ndarrays, ktensor/ttensor "
+        "factors and weights, sptensor/sptenmat subs and vals) C-contiguous, F-contiguous and as a non-contiguous strided view; "
+        "parameter classes include both sides of data-dependent switches (already-symmetric receiver, all-ones mask, identity "
+        "permutation, singleton modes, nothing to squash, identical stored patterns, exact cancellation) and multi-step histories "
+        "(receiver produced by normalize/arrange/redistribute, by S-S / S+S / S*S / a region read / a copy=False construction; result "
+        "written through pyttb's own __setitem__; model of one run reused as the next run's init; optimizer object reused); "
+        "non-trivial = the table entry returns or updates arrays (kind pure / inplace / nocopy, not scalar / property / attribute) and "
+        "its operands hold at least one non-empty array; distinct = distinct (op, parameter class, shape, seed, layout); one "
+        "'model-tie' case per function transliterated in Model/C05View.v (sharing skeleton of the current source vs. the recorded one)")
+CORRESPONDENCE_ONLY = ["disjointness of result and operand buffers per (operation, parameter class, layout): measured with "
+                       "np.shares_memory + cross-writes, not proved for all inputs, EXCEPT for the 19 return paths transliterated in "
+                       "Model/C05View.v (tensor.__init__/copy/permute/reshape/squeeze/__getitem__ region/to_tenmat, tenmat.__init__/copy/"
+                       "__getitem__, sptensor.__init__/copy/find, ktensor.__init__/copy/extract/tolist, khatrirao single matrix, "
+                       "to_memory_order) whose may-alias verdict is a theorem over the numpy view model; there the model itself is tied to "
+                       "pyttb by hand transliteration + sharing-skeleton check + agreement with the measured verdict on every generated row"]
 ASSUMPTIONS = [
     "np.shares_memory is exact on the small arrays used; the generic object walker (slots/__dict__/list/tuple/dict/scipy "
     "sparse) reaches every buffer of an operand or result (cross-checked by the in-place sentinel writes in both directions)",
-    "aliasing depends on the parameter class and memory layout, not on values: the enumerated classes (identity vs other "
-    "permutation, same vs new shape, single vs several modes, copy flag, init given, negative indices ...) are representative",
+    "aliasing depends on the parameter class and memory layout, not on values other than the enumerated data-dependent switches: the "
+    "enumerated classes (identity vs other permutation, same vs new shape, single vs several modes, copy flag, init given, negative "
+    "indices, C/F/strided operands, already-symmetric / all-ones / identical-pattern data ...) are representative",
     "optimizer/solver objects passed to gcp_opt are tracked as operands in the 'optimizer-tracked' rows (every attribute reachable "
     "from the object is snapshotted); that the stochastic solvers keep their run state in the object is known finding C05-N10",
+    "numpy view model (Model/C05View.v): non-negative strides; reshape(order='F') of an array that is neither F-contiguous nor of the "
+    "requested shape is modelled as a copy (numpy may still find a view); zero-size arrays are not special-cased; the model's verdict "
+    "is compared with the measured one on every generated row of a transliterated operation",
 ]
-EXPLANATION = ("Level other: C05_frame/C05_copy/C05_inplace_footprint are proved for all stores and write histories; their "
-               "hypothesis (result buffers disjoint from operand buffers) is measured here per operation x parameter class "
-               "and each measured row is evaluated by the Coq checker row_check (operands unchanged, disjoint, and the "
-               "cross-write observations agree with what the frame theorem predicts).")
+EXPLANATION = ("Level other: C05_frame/C05_copy/C05_inplace_footprint are proved for all stores and write histories; the numpy view model "
+               "(arrays = windows onto buffers) proves which numpy steps allocate and which alias, and from that the may-alias verdict "
+               "of 19 transliterated pyttb return paths for all arrays/parameters (C05_*_verdict). For every other operation the "
+               "hypothesis (result buffers disjoint from operand buffers) is measured here per operation x parameter class x layout "
+               "and each measured row is evaluated by the Coq checker row_check (operands unchanged, disjoint, no-copy constructions "
+               "share only the same-position buffer, and the cross-write observations agree with what the frame theorem predicts).")
 
 SHAPES = [(2, 3, 4), (3, 1, 2), (2, 2, 2)]
 SHAPES_THOROUGH = [(3, 4), (2, 3, 2, 2), (4, 1, 3)]
 CUBE = [(2, 2, 2)]
+LAYOUT_SHAPES = [(2, 3, 4)]      # quick tier: layout variants on this shape / an entry's first own shape (all shapes in thorough)
 NOSINGLE = [(2, 3, 4), (2, 2, 2)]
 CLASSES = ["tensor", "sptensor", "ktensor", "ttensor", "tenmat", "sptenmat", "sumtensor"]
 DUNDERS = ("__add__ __sub__ __mul__ __truediv__ __pow__ __eq__ __ne__ __lt__ __le__ __gt__ __ge__ __neg__ __pos__ "
@@ -149,10 +167,12 @@ class B:
 TABLE = {}
 
 
-def reg(ns, name, pclass, build, call, kind="pure", shapes=None, recv=None, thorough_shapes=True):
+def reg(ns, name, pclass, build, call, kind="pure", shapes=None, recv=None, thorough_shapes=True, allow=None, layouts=True):
+    """allow (nocopy rows only): predicate (result path, operand path) -> bool naming the sharing the documentation of the
+    no-copy construction permits; any other shared pair fails the row.  layouts=False: no memory-layout variants."""
     TABLE.setdefault((ns, name), []).append(
         dict(pclass=pclass, build=build, call=call, kind=kind, shapes=shapes, recv=recv if kind == "inplace" else None,
-             tshapes=thorough_shapes and shapes is None))
+             tshapes=thorough_shapes and shapes is None, allow=allow, layouts=layouts))
 
 
 def skip(ns, name, why):
@@ -990,6 +1010,403 @@ def _degenerate_table():
 
 _degenerate_table()
 
+
+# ---- wave 3: documented sharing of the no-copy constructions (anything else shared fails the row) --------------
+def same_pos(**m):
+    """allow-predicate: a buffer of the result may share storage only with the buffer at the same position of the
+    argument it was built from (result.<k> ... with <m[k]> ...)"""
+    pairs = [("result" + ("" if k == "_" else "." + k), v) for k, v in m.items()]
+
+    def ok(pr, po):
+        return any(pr.startswith(rp) and po.startswith(op) and pr[len(rp):] == po[len(op):] for rp, op in pairs)
+    return ok
+
+
+def _allow_table():
+    A = {("tensor", "__init__", "copy=False"): same_pos(data="d"), ("tensor", "__init__", "copy=False,C-order"): same_pos(data="d"),
+         ("sptensor", "__init__", "copy=False"): same_pos(subs="s", vals="v"),
+         ("ktensor", "__init__", "copy=False"): same_pos(weights="w", factor_matrices="f"),
+         ("ttensor", "__init__", "copy=False"): same_pos(core="core", factor_matrices="f"),
+         ("tenmat", "__init__", "copy=False"): same_pos(data="d"),
+         ("sptenmat", "__init__", "copy=False"): same_pos(subs="s", vals="v"),
+         ("sumtensor", "__init__", "copy=False"): same_pos(parts="p"),
+         ("tensor", "to_tenmat", "copy=False"): same_pos(data="X.data"),
+         ("tenmat", "to_tensor", "copy=False"): same_pos(data="X.data"),
+         ("utils", "to_memory_order", "copy=False,matching"): same_pos(_="a"),
+         ("utils", "to_memory_order", "copy=False,converting"): same_pos(_="a")}
+    for (ns, name, pc), f in A.items():
+        e = next(x for x in TABLE[(ns, name)] if x["pclass"] == pc)
+        assert e["kind"] == "nocopy"
+        e["allow"] = f
+
+
+_allow_table()
+
+
+# ---- wave 3: both sides of data-dependent switches (inputs on which an algorithm has nothing to do) -----------
+def _switch_table():
+    def symT(b, off=0):        # exactly symmetric in every mode (cube shapes only)
+        a = b.arr(off)
+        import itertools
+        acc = np.zeros_like(a)
+        for p in itertools.permutations(range(b.N)):
+            acc = acc + np.transpose(a, p)
+        return b.ttb.tensor(acc, copy=True)
+
+    def sym01(b):              # symmetric in modes (0, 1) only
+        a = b.arr()
+        return b.ttb.tensor(a + np.swapaxes(a, 0, 1), copy=True)
+    c = "tensor"
+    reg(c, "symmetrize", "already-symmetric", lambda b: dict(X=symT(b)), lambda o: o.X.symmetrize(), shapes=CUBE + [(3, 3, 3), (2, 2)])
+    reg(c, "symmetrize", "already-symmetric,constant", lambda b: dict(X=b.ttb.tenones(b.shape)), lambda o: o.X.symmetrize(), shapes=CUBE)
+    reg(c, "symmetrize", "already-symmetric,grps", lambda b: dict(X=sym01(b), g=np.array([0, 1])), lambda o: o.X.symmetrize(o.g), shapes=CUBE + [(3, 3, 2)])
+    reg(c, "symmetrize", "already-symmetric,version1", lambda b: dict(X=symT(b)), lambda o: o.X.symmetrize(version=1), shapes=CUBE)
+    reg(c, "symmetrize", "second-use", lambda b: dict(X=b.T().symmetrize()), lambda o: o.X.symmetrize(), shapes=CUBE)
+    reg(c, "issymmetric", "already-symmetric,details", lambda b: dict(X=symT(b)), lambda o: o.X.issymmetric(return_details=True), shapes=CUBE)
+    reg("ktensor", "symmetrize", "already-symmetric", lambda b: dict(X=b.ttb.ktensor([np.array([[1.0, 2.0], [3.0, 4.0]]) for _ in range(b.N)], np.array([2.0, 3.0]))),
+        lambda o: o.X.symmetrize(), shapes=CUBE)
+    reg("ktensor", "symmetrize", "second-use", lambda b: dict(X=b.K().symmetrize()), lambda o: o.X.symmetrize(), shapes=CUBE)
+    # nothing to do: all-ones mask / scale, singleton modes, full coverage
+    reg(c, "mask", "all-ones", lambda b: dict(X=b.T(), W=b.ttb.tenones(b.shape)), lambda o: o.X.mask(o.W))
+    reg(c, "scale", "ones", lambda b: dict(X=b.T(), f=np.ones(b.shape[0])), lambda o: o.X.scale(o.f, 0))
+    reg(c, "collapse", "singleton-dim", lambda b: dict(X=b.T(), dims=np.array([1])), lambda o: o.X.collapse(o.dims), shapes=[(3, 1, 2), (2, 1)])
+    reg(c, "ttv", "singleton-mode,one", lambda b: dict(X=b.T(), v=np.array([1.0])), lambda o: o.X.ttv(o.v, 1), shapes=[(3, 1, 2), (2, 1)])
+    reg(c, "ttm", "singleton-mode,1x1-identity", lambda b: dict(X=b.T(), M=np.array([[1.0]])), lambda o: o.X.ttm(o.M, 1), shapes=[(3, 1, 2), (2, 1)])
+    reg(c, "ttm", "all,identity-matrices", lambda b: dict(X=b.T(), M=[np.eye(s) for s in b.shape]), lambda o: o.X.ttm(o.M))
+    reg(c, "to_sptensor", "all-nonzero", X("T"), lambda o: o.X.to_sptensor())
+    reg(c, "__getitem__", "whole-range-slices-explicit", X("T"), lambda o, b: o.X[tuple(slice(0, s) for s in b.shape)])
+    reg(c, "reshape", "drop-singleton", X("T"), lambda o, b: o.X.reshape(tuple(s for s in b.shape if s != 1)), shapes=[(3, 1, 2), (1, 3, 1)])
+    reg(c, "reshape", "add-singleton", X("T"), lambda o, b: o.X.reshape(b.shape + (1,)))
+    reg(c, "permute", "identity,list", lambda b: dict(X=b.T(), order=list(range(b.N))), lambda o: o.X.permute(o.order))
+    reg(c, "permute", "identity,tuple", X("T"), lambda o, b: o.X.permute(tuple(range(b.N))))
+    reg(c, "squeeze", "1-way", X("T"), lambda o: o.X.squeeze(), shapes=[(4,)])
+    reg(c, "permute", "1-way", lambda b: dict(X=b.T(), order=np.array([0])), lambda o: o.X.permute(o.order), shapes=[(4,)])
+    reg(c, "reshape", "1-way,same", X("T"), lambda o, b: o.X.reshape(b.shape), shapes=[(4,)])
+    reg(c, "to_tenmat", "1-way", lambda b: dict(X=b.T(), r=np.array([0])), lambda o: o.X.to_tenmat(o.r), shapes=[(4,)])
+    reg(c, "to_tenmat", "all-columns", lambda b: dict(X=b.T(), cd=np.arange(b.N)), lambda o: o.X.to_tenmat(cdims=o.cd))
+    reg("tenmat", "to_tensor", "copy=True,all-rows", lambda b: dict(X=b.T().to_tenmat(np.arange(b.N))), lambda o: o.X.to_tensor())
+    reg("tenmat", "to_tensor", "copy=True,all-columns", lambda b: dict(X=b.T().to_tenmat(cdims=np.arange(b.N))), lambda o: o.X.to_tensor())
+    reg("tenmat", "ctranspose", "vectorised", lambda b: dict(X=b.T().to_tenmat(np.arange(b.N))), lambda o: o.X.ctranspose())
+    c = "sptensor"
+    fullS = lambda b: b.T().to_sptensor()           # every entry stored
+    reg(c, "squash", "nothing-to-squash", lambda b: dict(X=fullS(b)), lambda o: o.X.squash())
+    reg(c, "squash", "nothing-to-squash,inverse", lambda b: dict(X=fullS(b)), lambda o: o.X.squash(True))
+    reg(c, "mask", "all-stored", lambda b: dict(X=b.S(), W=b.S().ones()), lambda o: o.X.mask(o.W))
+    reg(c, "extract", "all-stored", lambda b: dict(X=b.S(), q=b.subs()), lambda o: o.X.extract(o.q))
+    reg(c, "__getitem__", "all-stored-subscripts", lambda b: dict(X=b.S(), s=b.subs()), lambda o: o.X[o.s])
+    reg(c, "__getitem__", "whole-range-slices-explicit", X("S"), lambda o, b: o.X[tuple(slice(0, s) for s in b.shape)])
+    reg(c, "to_tensor", "every-entry-stored", lambda b: dict(X=fullS(b)), lambda o: o.X.to_tensor())
+    reg(c, "collapse", "singleton-dim", lambda b: dict(X=b.S(), dims=np.array([1])), lambda o: o.X.collapse(o.dims), shapes=[(3, 1, 2)])
+    reg(c, "ttv", "singleton-mode,one", lambda b: dict(X=b.S(), v=np.array([1.0])), lambda o: o.X.ttv(o.v, 1), shapes=[(3, 1, 2)])
+    reg(c, "scale", "ones", lambda b: dict(X=b.S(), f=np.ones(b.shape[0]), d=np.array([0])), lambda o: o.X.scale(o.f, o.d))
+    reg(c, "elemfun", "to-zero", X("S"), lambda o: o.X.elemfun(lambda v: v * 0))
+    reg(c, "__init__", "copy=True,explicit-zeros", lambda b: dict(s=b.subs(), v=b.vals() * 0), lambda o, b: b.ttb.sptensor(o.s, o.v, b.shape, copy=True))
+    reg(c, "__init__", "copy=True,one-entry", lambda b: dict(s=b.subs()[:1].copy(), v=b.vals()[:1].copy()), lambda o, b: b.ttb.sptensor(o.s, o.v, b.shape, copy=True))
+    reg(c, "__init__", "copy=True,int32-subs", lambda b: dict(s=b.subs().astype(np.int32), v=b.vals()), lambda o, b: b.ttb.sptensor(o.s, o.v, b.shape, copy=True))
+    reg(c, "permute", "1-way", lambda b: dict(X=b.S(), order=np.array([0])), lambda o: o.X.permute(o.order), shapes=[(4,)])
+    reg(c, "reshape", "drop-singleton", X("S"), lambda o, b: o.X.reshape(tuple(s for s in b.shape if s != 1)), shapes=[(3, 1, 2)])
+    reg(c, "__add__", "identical-pattern", lambda b: dict(X=b.S(), Y=b.S()), lambda o: o.X + o.Y)
+    reg(c, "__sub__", "identical-pattern(cancels)", lambda b: dict(X=b.S(), Y=b.S()), lambda o: o.X - o.Y)
+    reg(c, "__mul__", "identical-pattern", lambda b: dict(X=b.S(), Y=b.S()), lambda o: o.X * o.Y)
+    reg(c, "__eq__", "identical-pattern", lambda b: dict(X=b.S(), Y=b.S()), lambda o: o.X == o.Y)
+    reg(c, "logical_and", "identical-pattern", lambda b: dict(X=b.S(), Y=b.S()), lambda o: o.X.logical_and(o.Y))
+
+    def setit(o, key, val):
+        o.X[key] = val
+        return None
+    I = dict(kind="inplace", recv="X")
+    blk = lambda b: b.ttb.sptensor(np.array([[0] * b.N, [0] * (b.N - 1) + [1]]), np.array([[5.0], [6.0]]), (1,) * (b.N - 1) + (2,))
+    big = (3, 3, 4)
+    reg(c, "__setitem__", "offset-block,sptensor,into-empty", lambda b: dict(X=b.ttb.sptensor(shape=b.shape), v=blk(b)),
+        lambda o, b: setit(o, (slice(1, 2),) * (b.N - 1) + (slice(1, 3),), o.v), shapes=[big], **I)
+    reg(c, "__setitem__", "offset-block,sptensor", lambda b: dict(X=b.S(), v=blk(b)),
+        lambda o, b: setit(o, (slice(1, 2),) * (b.N - 1) + (slice(1, 3),), o.v), shapes=[big], **I)
+    reg(c, "__setitem__", "origin-block,sptensor,into-empty", lambda b: dict(X=b.ttb.sptensor(shape=b.shape), v=blk(b)),
+        lambda o, b: setit(o, (slice(0, 1),) * (b.N - 1) + (slice(0, 2),), o.v), shapes=[big], **I)
+    reg(c, "__setitem__", "index-lists,sptensor", lambda b: dict(X=b.S(), v=blk(b), r=[2], r2=[3, 1]),
+        lambda o, b: setit(o, (o.r,) * (b.N - 1) + (o.r2,), o.v), shapes=[big], **I)
+    reg(c, "__setitem__", "slice-then-int,sptensor", lambda b: dict(X=b.S(), v=b.ttb.sptensor(np.array([[0, 1]]), np.array([[5.0]]), (1, 2))),
+        lambda o, b: setit(o, (slice(1, 2), 1, slice(1, 3)), o.v), shapes=[big], **I)
+    c = "ktensor"
+    unit = lambda b: b.ttb.ktensor([np.eye(s)[:, :2] if s >= 2 else np.ones((1, 2)) for s in b.shape], np.array([3.0, 2.0]))   # normalised, sorted
+    reg(c, "normalize", "already-normalised", lambda b: dict(X=unit(b)), lambda o: o.X.normalize(), shapes=NOSINGLE, **I)
+    reg(c, "arrange", "already-arranged", lambda b: dict(X=unit(b)), lambda o: o.X.arrange(), shapes=NOSINGLE, **I)
+    reg(c, "arrange", "identity-permutation", lambda b: dict(X=b.K(), p=np.array([0, 1])), lambda o: o.X.arrange(permutation=o.p), **I)
+    reg(c, "extract", "all,in-order,list", lambda b: dict(X=b.K(), i=[0, 1]), lambda o: o.X.extract(o.i))
+    reg(c, "extract", "single-component-receiver", lambda b: dict(X=b.K(R=1)), lambda o: o.X.extract(0))
+    reg(c, "permute", "identity,list", lambda b: dict(X=b.K(), order=list(range(b.N))), lambda o: o.X.permute(o.order))
+    reg(c, "redistribute", "unit-weights", lambda b: dict(X=b.ttb.ktensor(b.fm())), lambda o: o.X.redistribute(0), **I)
+    reg(c, "tolist", "mode=last", XKl := X("K"), lambda o, b: o.X.tolist(b.N - 1))
+    reg(c, "tovec", "single-component", lambda b: dict(X=b.K(R=1)), lambda o: o.X.tovec())
+    reg(c, "full", "single-component", lambda b: dict(X=b.K(R=1)), lambda o: o.X.full())
+    reg(c, "full", "1-way", X("K"), lambda o: o.X.full(), shapes=[(4,)])
+    reg(c, "tolist", "1-way", X("K"), lambda o: o.X.tolist(), shapes=[(4,)])
+    reg(c, "ttv", "2-way,single", lambda b: dict(X=b.K(), v=b.vec(0)), lambda o: o.X.ttv(o.v, 0), shapes=[(3, 4)])
+    reg("ttensor", "full", "1x..x1-core", lambda b: dict(X=b.ttb.ttensor(b.ttb.tensor(np.array([2.0]).reshape((1,) * b.N)), [np.ones((s, 1)) for s in b.shape])), lambda o: o.X.full())
+    reg("ttensor", "ttm", "identity-matrix", lambda b: dict(X=b.TT(), M=np.eye(b.shape[0])), lambda o: o.X.ttm(o.M, 0))
+    reg("ttensor", "permute", "identity,list", lambda b: dict(X=b.TT(), order=list(range(b.N))), lambda o: o.X.permute(o.order))
+    reg("ttb", "khatrirao", "single-matrix,list", lambda b: dict(U=[b.fm()[0]]), lambda o, b: b.ttb.khatrirao(*o.U))
+    reg("ttb", "khatrirao", "with-ones-row", lambda b: dict(A=b.fm()[0], Bm=np.ones((1, 2))), lambda o, b: b.ttb.khatrirao(o.A, o.Bm))
+    reg("ttb", "khatrirao", "ones-row-first", lambda b: dict(A=np.ones((1, 2)), Bm=b.fm()[0]), lambda o, b: b.ttb.khatrirao(o.A, o.Bm))
+
+
+_switch_table()
+
+
+# ---- wave 3: multi-step histories (the result of one public operation is the operand of the next) ------------
+def _history_table():
+    # ktensor whose state was produced by an in-place method (normalize(weight_factor) leaves C-ordered factors)
+    preps = [("normalize(0)", lambda K: K.normalize(0)), ("normalize(all)", lambda K: K.normalize("all")),
+             ("normalize()", lambda K: K.normalize()), ("arrange()", lambda K: K.arrange()),
+             ("redistribute(last)", lambda K: K.redistribute(K.ndims - 1))]
+    for pn, pf in preps:
+        def mk(b, pf=pf, off=0):
+            K = b.K(off=off)
+            pf(K)
+            return K
+        XK = lambda b, mk=mk: dict(X=mk(b))
+        nm = "after-" + pn
+        c = "ktensor"
+        reg(c, "tovec", nm, XK, lambda o: o.X.tovec(), layouts=False)
+        reg(c, "tovec", nm + ",no-weights", XK, lambda o: o.X.tovec(False), layouts=False)
+        reg(c, "tolist", nm, XK, lambda o: o.X.tolist(), layouts=False)
+        reg(c, "tolist", nm + ",mode", XK, lambda o: o.X.tolist(0), layouts=False)
+        reg(c, "full", nm, XK, lambda o: o.X.full(), layouts=False)
+        reg(c, "extract", nm, XK, lambda o: o.X.extract(1), layouts=False)
+        reg(c, "extract", nm + ",all", lambda b, mk=mk: dict(X=mk(b), i=np.array([0, 1])), lambda o: o.X.extract(o.i), layouts=False)
+        reg(c, "copy", nm, XK, lambda o: o.X.copy(), layouts=False)
+        reg(c, "double", nm, XK, lambda o: o.X.double(), layouts=False)
+        reg(c, "permute", nm + ",identity", lambda b, mk=mk: dict(X=mk(b), order=np.arange(b.N)), lambda o: o.X.permute(o.order), layouts=False)
+        reg(c, "permute", nm + ",reverse", lambda b, mk=mk: dict(X=mk(b), order=np.arange(b.N)[::-1].copy()), lambda o: o.X.permute(o.order), layouts=False)
+        reg(c, "ttv", nm, lambda b, mk=mk: dict(X=mk(b), v=b.vec(0)), lambda o: o.X.ttv(o.v, 0), layouts=False)
+        reg(c, "mttkrp", nm, lambda b, mk=mk: dict(X=mk(b), U=b.fm(R=3, off=1)), lambda o: o.X.mttkrp(o.U, 0), layouts=False)
+        reg(c, "to_tenmat", nm, lambda b, mk=mk: dict(X=mk(b), r=np.array([0])), lambda o: o.X.to_tenmat(o.r), layouts=False)
+        reg(c, "mask", nm, lambda b, mk=mk: dict(X=mk(b), W=b.W()), lambda o: o.X.mask(o.W), layouts=False)
+        reg(c, "__add__", nm, lambda b, mk=mk: dict(X=mk(b), Y=mk(b, off=1)), lambda o: o.X + o.Y, layouts=False)
+        reg(c, "__mul__", nm + ",one", XK, lambda o: o.X * 1, layouts=False)
+        reg(c, "__pos__", nm, XK, lambda o: +o.X, layouts=False)
+        reg(c, "nvecs", nm, XK, lambda o: o.X.nvecs(0, 1), layouts=False)
+        reg(c, "score", nm, lambda b, mk=mk: dict(X=mk(b), Y=mk(b, off=1)), lambda o: o.X.score(o.Y), layouts=False)
+        reg(c, "normalize", nm + ",again", XK, lambda o: o.X.normalize(), kind="inplace", recv="X", layouts=False)
+        reg("tensor", "mttkrp", "ktensor," + nm, lambda b, mk=mk: dict(X=b.T(), U=mk(b)), lambda o: o.X.mttkrp(o.U, 0), layouts=False)
+        reg("sptensor", "mttkrp", "ktensor," + nm, lambda b, mk=mk: dict(X=b.S(), U=mk(b)), lambda o: o.X.mttkrp(o.U, 0), layouts=False)
+        reg("sumtensor", "__init__", "copy=True,part-" + nm, lambda b, mk=mk: dict(p=[b.T(), mk(b)]), lambda o, b: b.ttb.sumtensor(o.p, copy=True), layouts=False)
+        reg("ttb", "cp_als", "init=ktensor," + nm, lambda b, mk=mk: dict(X=b.T(), init=mk(b)),
+            lambda o, b: _M(b.ttb.cp_als, o.X, 2, init=o.init, maxiters=2, printitn=0), shapes=[(2, 3, 4)], layouts=False)
+    # a user assigns his own array as a factor matrix (C-ordered / a view), then uses the ktensor
+    def assigned(b, how):
+        K = b.K()
+        f = b.fm(off=2)[0]
+        K.factor_matrices[0] = {"C": np.ascontiguousarray(f), "F": np.asfortranarray(f), "T-view": np.ascontiguousarray(f.T).T}[how]
+        return K
+    for how in ("C", "F", "T-view"):
+        for opn, f in (("tovec", lambda o: o.X.tovec()), ("tolist", lambda o: o.X.tolist()), ("copy", lambda o: o.X.copy()), ("full", lambda o: o.X.full()),
+                       ("extract", lambda o: o.X.extract(0)), ("double", lambda o: o.X.double()), ("__neg__", lambda o: -o.X)):
+            reg("ktensor", opn, f"factor-assigned({how})", lambda b, how=how: dict(X=assigned(b, how)), f, layouts=False)
+    # tensors / sptensors that are results of other operations; the first operation's operands stay tracked
+    c = "tensor"
+    ident = lambda b: np.arange(b.N)
+    rev = lambda b: np.arange(b.N)[::-1].copy()
+
+    def wr(Y, b, v=99.0):
+        Y[(0,) * Y.ndims] = v
+        return Y
+    reg(c, "permute", "identity,then-write-result", lambda b: dict(X=b.T(), order=ident(b)), lambda o, b: wr(o.X.permute(o.order), b))
+    reg(c, "reshape", "same-shape,then-write-result", X("T"), lambda o, b: wr(o.X.reshape(b.shape), b))
+    reg(c, "squeeze", "no-singleton,then-write-result", X("T"), lambda o, b: wr(o.X.squeeze(), b), shapes=NOSINGLE)
+    reg(c, "__getitem__", "full-slice,then-write-result", X("T"), lambda o, b: wr(o.X[(slice(None),) * b.N], b))
+    reg(c, "__getitem__", "sub-slice,then-write-result", X("T"), lambda o, b: wr(o.X[(slice(0, 2),) + (slice(None),) * (b.N - 1)], b))
+    reg(c, "__pos__", "then-write-result", X("T"), lambda o, b: wr(+o.X, b))
+    reg(c, "copy", "then-write-result", X("T"), lambda o, b: wr(o.X.copy(), b))
+    reg(c, "full", "then-write-result", X("T"), lambda o, b: wr(o.X.full(), b))
+    reg(c, "permute", "there-and-back", lambda b: dict(X=b.T(), order=rev(b)), lambda o: o.X.permute(o.order).permute(o.order))
+    reg(c, "permute", "of-permuted", lambda b: dict(A=b.T(), X=b.T().permute(rev(b)), order=rev(b)), lambda o: o.X.permute(o.order))
+    reg(c, "reshape", "there-and-back", X("T"), lambda o, b: o.X.reshape((b.n,)).reshape(b.shape))
+    reg(c, "to_tenmat", "then-to_tensor", lambda b: dict(X=b.T(), r=np.array([0])), lambda o: o.X.to_tenmat(o.r).to_tensor())
+    reg(c, "to_tenmat", "of-permuted", lambda b: dict(X=b.T().permute(rev(b)), r=np.array([0])), lambda o: o.X.to_tenmat(o.r))
+    reg(c, "to_sptensor", "then-full", X("T"), lambda o: o.X.to_sptensor().full())
+    reg(c, "__eq__", "of-sum,scalar", lambda b: dict(A=b.T(), Bm=b.T(1), X=b.T() + b.T(1)), lambda o: o.X == 0)
+    reg(c, "__add__", "chain", lambda b: dict(X=b.T(), Y=b.T(1), Z=b.T(2)), lambda o: (o.X + o.Y) + o.Z)
+    reg(c, "ttv", "second-call-same-object", lambda b: dict(X=b.T(), v=b.vec(0)), lambda o: (o.X.ttv(o.v, 0), o.X.ttv(o.v, 0)))
+    reg(c, "ttm", "of-ttm-result", lambda b: dict(X=b.T().ttm(b.mat(0), 0), M=b.mat(1)), lambda o: o.X.ttm(o.M, 1))
+    reg(c, "mttkrp", "of-region-read", lambda b: dict(X=b.T()[(slice(None),) * b.N], U=b.fm()), lambda o: o.X.mttkrp(o.U, 0))
+    reg(c, "__setitem__", "after-region-read", lambda b: dict(X=b.T(), Y=b.T()[(slice(0, 1),) + (slice(None),) * (b.N - 1)]),
+        lambda o, b: o.X.__setitem__((0,) * b.N, 77.0), kind="inplace", recv="X")
+    reg(c, "__setitem__", "after-identity-permute", lambda b: (lambda T: dict(X=T, Y=T.permute(np.arange(b.N))))(b.T()),
+        lambda o, b: o.X.__setitem__((0,) * b.N, 77.0), kind="inplace", recv="X")
+    reg(c, "__setitem__", "after-same-shape-reshape", lambda b: (lambda T: dict(X=T, Y=T.reshape(b.shape)))(b.T()),
+        lambda o, b: o.X.__setitem__((slice(None),) * b.N, 5.0), kind="inplace", recv="X")
+    reg(c, "__setitem__", "after-full-region-read", lambda b: (lambda T: dict(X=T, Y=T[(slice(None),) * b.N]))(b.T()),
+        lambda o, b: o.X.__setitem__((slice(None),) * b.N, 5.0), kind="inplace", recv="X")
+    reg(c, "__setitem__", "after-copy", lambda b: (lambda T: dict(X=T, Y=T.copy()))(b.T()),
+        lambda o, b: o.X.__setitem__((0,) * b.N, 77.0), kind="inplace", recv="X")
+    c = "sptensor"
+    reg(c, "__getitem__", "sub-slice,then-write-result", X("S"), lambda o, b: wr(o.X[(slice(0, 2),) + (slice(None),) * (b.N - 1)], b))
+    reg(c, "__getitem__", "full-slice,then-write-result", X("S"), lambda o, b: wr(o.X[(slice(None),) * b.N], b))
+    reg(c, "permute", "identity,then-write-result", lambda b: dict(X=b.S(), order=ident(b)), lambda o, b: wr(o.X.permute(o.order), b))
+    reg(c, "copy", "then-write-result", X("S"), lambda o, b: wr(o.X.copy(), b))
+    reg(c, "__pos__", "then-write-result", X("S"), lambda o, b: wr(+o.X, b))
+    reg(c, "reshape", "same-shape,then-write-result", X("S"), lambda o, b: wr(o.X.reshape(b.shape), b))
+    reg(c, "squeeze", "no-singleton,then-write-result", X("S"), lambda o, b: wr(o.X.squeeze(), b), shapes=NOSINGLE)
+    for pclass, mk in (("of-difference(S-S)", lambda b: b.S() - b.S()), ("of-sum", lambda b: b.S() + b.S(1)), ("of-product", lambda b: b.S() * b.S()),
+                       ("of-region-read", lambda b: b.S()[(slice(None),) * b.N]), ("of-permuted-twice", lambda b: b.S().permute(np.arange(b.N)[::-1].copy()).permute(np.arange(b.N)[::-1].copy())),
+                       ("of-elemfun-to-zero", lambda b: b.S().elemfun(lambda v: v * 0))):
+        reg(c, "ttv", pclass, lambda b, mk=mk: dict(X=mk(b), v=b.vec(0)), lambda o: o.X.ttv(o.v, 0))
+        reg(c, "full", pclass, lambda b, mk=mk: dict(X=mk(b)), lambda o: o.X.full())
+        reg(c, "copy", pclass, lambda b, mk=mk: dict(X=mk(b)), lambda o: o.X.copy())
+        reg(c, "permute", pclass + ",identity", lambda b, mk=mk: dict(X=mk(b), order=np.arange(b.N)), lambda o: o.X.permute(o.order))
+        reg(c, "to_sptenmat", pclass, lambda b, mk=mk: dict(X=mk(b), r=np.array([0])), lambda o: o.X.to_sptenmat(o.r))
+        reg(c, "__add__", pclass, lambda b, mk=mk: dict(X=mk(b), Y=b.S(1)), lambda o: o.X + o.Y)
+        reg(c, "__eq__", pclass + ",scalar", lambda b, mk=mk: dict(X=mk(b)), lambda o: o.X == 0)
+        reg(c, "mttkrp", pclass, lambda b, mk=mk: dict(X=mk(b), U=b.fm()), lambda o: o.X.mttkrp(o.U, 0))
+        reg(c, "__setitem__", pclass + ",element", lambda b, mk=mk: dict(X=mk(b)), lambda o, b: o.X.__setitem__((0,) * b.N, 9.0), kind="inplace", recv="X")
+    reg(c, "__setitem__", "after-region-read", lambda b: (lambda S: dict(X=S, Y=S[(slice(None),) * b.N]))(b.S()),
+        lambda o, b: o.X.__setitem__(tuple(int(x) for x in b.subs_list()[0]), 77.0), kind="inplace", recv="X")
+    reg(c, "__setitem__", "after-identity-permute", lambda b: (lambda S: dict(X=S, Y=S.permute(np.arange(b.N))))(b.S()),
+        lambda o, b: o.X.__setitem__(tuple(int(x) for x in b.subs_list()[0]), 77.0), kind="inplace", recv="X")
+    reg(c, "__setitem__", "after-find", lambda b: (lambda S: dict(X=S, Y=S.find()))(b.S()),
+        lambda o, b: o.X.__setitem__(tuple(int(x) for x in b.subs_list()[0]), 77.0), kind="inplace", recv="X")
+    reg(c, "to_sptenmat", "then-to_sptensor", lambda b: dict(X=b.S(), r=np.array([0])), lambda o: o.X.to_sptenmat(o.r).to_sptensor())
+    reg(c, "ttv", "second-call-same-object", lambda b: dict(X=b.S(), v=b.vec(0)), lambda o: (o.X.ttv(o.v, 0), o.X.ttv(o.v, 0)))
+    reg("tenmat", "to_tensor", "of-to_tenmat(copy=False)", lambda b: (lambda T: dict(T=T, X=T.to_tenmat(np.array([0]), copy=False)))(b.T()), lambda o: o.X.to_tensor())
+    reg("tenmat", "copy", "of-to_tenmat(copy=False)", lambda b: (lambda T: dict(T=T, X=T.to_tenmat(np.array([0]), copy=False)))(b.T()), lambda o: o.X.copy())
+    reg("tenmat", "__add__", "of-to_tenmat(copy=False),zero", lambda b: (lambda T: dict(T=T, X=T.to_tenmat(np.array([0]), copy=False)))(b.T()), lambda o: o.X + 0)
+    reg("tenmat", "ctranspose", "twice", X("TM"), lambda o: o.X.ctranspose().ctranspose())
+    # tensor built without copying from the caller's array (F-ordered: shared), then used
+    nocopyT = lambda b: (lambda d: dict(d=d, X=b.ttb.tensor(d, copy=False)))(b.arr())
+    for opn, f in (("copy", lambda o: o.X.copy()), ("full", lambda o: o.X.full()), ("double", lambda o: o.X.double()), ("__pos__", lambda o: +o.X),
+                   ("squeeze", lambda o: o.X.squeeze()), ("to_sptensor", lambda o: o.X.to_sptensor()), ("exp", lambda o: o.X.exp()),
+                   ("__mul__", lambda o: o.X * 1), ("find", lambda o: o.X.find())):
+        reg("tensor", opn, "receiver-built-copy=False", nocopyT, f)
+    reg("tensor", "permute", "identity,receiver-built-copy=False", nocopyT, lambda o, b: o.X.permute(np.arange(b.N)))
+    reg("tensor", "reshape", "same-shape,receiver-built-copy=False", nocopyT, lambda o, b: o.X.reshape(b.shape))
+    reg("tensor", "__getitem__", "full-slice,receiver-built-copy=False", nocopyT, lambda o, b: o.X[(slice(None),) * b.N])
+    reg("tensor", "to_tenmat", "receiver-built-copy=False", nocopyT, lambda o: o.X.to_tenmat(np.array([0])))
+    nocopyS = lambda b: (lambda s, v: dict(s=s, v=v, X=b.ttb.sptensor(s, v, b.shape, copy=False)))(b.subs(), b.vals())
+    for opn, f in (("copy", lambda o: o.X.copy()), ("full", lambda o: o.X.full()), ("find", lambda o: o.X.find()), ("__pos__", lambda o: +o.X),
+                   ("double", lambda o: o.X.double()), ("squeeze", lambda o: o.X.squeeze()), ("ones", lambda o: o.X.ones()), ("__mul__", lambda o: o.X * 1),
+                   ("squash", lambda o: o.X.squash())):
+        reg("sptensor", opn, "receiver-built-copy=False", nocopyS, f)
+    reg("sptensor", "permute", "identity,receiver-built-copy=False", nocopyS, lambda o, b: o.X.permute(np.arange(b.N)))
+    reg("sptensor", "reshape", "same-shape,receiver-built-copy=False", nocopyS, lambda o, b: o.X.reshape(b.shape))
+    reg("sptensor", "__getitem__", "full-slice,receiver-built-copy=False", nocopyS, lambda o, b: o.X[(slice(None),) * b.N])
+    reg("sptensor", "to_sptenmat", "receiver-built-copy=False", nocopyS, lambda o: o.X.to_sptenmat(np.array([0])))
+    # algorithms: a model returned by one run is the initial guess of the next; an optimizer object is used twice
+    kw = dict(maxiters=2, printitn=0)
+    ALG1 = [(2, 3, 4)]
+    reg("ttb", "cp_als", "init=result-of-previous-run", lambda b: dict(X=b.T(), init=b.ttb.cp_als(b.T(), 2, init=b.K(), **kw)[0]),
+        lambda o, b: _M(b.ttb.cp_als, o.X, 2, init=o.init, **kw), shapes=ALG1, layouts=False)
+    akw = dict(maxiters=2, printitn=0, printinneritn=0, maxinneriters=2)
+    reg("ttb", "cp_apr", "mu,init=result-of-previous-run", lambda b: dict(X=b.S(), init=b.ttb.cp_apr(b.S(), 2, algorithm="mu", init=b.K(), **akw)[0]),
+        lambda o, b: _M(b.ttb.cp_apr, o.X, 2, algorithm="mu", init=o.init, **akw), shapes=ALG1, layouts=False)
+    reg("ttb", "tucker_als", "init=result-of-hosvd", lambda b: dict(X=b.T(), rank=np.array(b.ranks()), init=b.ttb.hosvd(b.T(), 1e-4, verbosity=0, ranks=b.ranks()).factor_matrices),
+        lambda o, b: _M(b.ttb.tucker_als, o.X, o.rank, init=o.init, **kw), shapes=ALG1, layouts=False)
+    reg("ttb", "cp_als", "second-run-same-operands", lambda b: dict(X=b.T(), init=b.K()),
+        lambda o, b: (_M(b.ttb.cp_als, o.X, 2, init=o.init, **kw), _M(b.ttb.cp_als, o.X, 2, init=o.init, **kw)), shapes=ALG1, layouts=False)
+
+    def lb():
+        from pyttb.gcp.optimizers import LBFGSB
+        return LBFGSB(maxiter=2, iprint=-1)
+
+    def gcp2(b, X, init, opt):
+        from pyttb.gcp.fg_setup import Objectives
+        r1 = _M(b.ttb.gcp_opt, X, 2, Objectives.GAUSSIAN, opt, init=init, printitn=0)
+        r2 = _M(b.ttb.gcp_opt, X, 2, Objectives.GAUSSIAN, opt, init=init, printitn=0)
+        return (r1, r2)
+    reg("ttb", "gcp_opt", "lbfgsb,optimizer-reused,init=list", lambda b: dict(X=b.T(), init=b.fm(), opt=lb()), lambda o, b: gcp2(b, o.X, o.init, o.opt), shapes=ALG1, layouts=False)
+
+
+_history_table()
+
+
+# ---- wave 3: option corners of the algorithm entry points; mixed layouts for the no-copy constructors ----------
+def _corner_table():
+    ALG1 = [(2, 3, 4)]
+    c = "ttb"
+    reg(c, "cp_als", "init=ktensor,maxiters=1,printitn=1", lambda b: dict(X=b.T(), init=b.K()), lambda o, b: _M(b.ttb.cp_als, o.X, 2, init=o.init, maxiters=1, printitn=1), shapes=ALG1)
+    reg(c, "cp_als", "init=ktensor,stoptol=1(stops-at-once)", lambda b: dict(X=b.T(), init=b.K()), lambda o, b: _M(b.ttb.cp_als, o.X, 2, init=o.init, maxiters=5, stoptol=1.0, printitn=0), shapes=ALG1)
+    reg(c, "tucker_als", "init=list,maxiters=1,printitn=1", lambda b: dict(X=b.T(), rank=np.array(b.ranks()), init=b.TT().factor_matrices),
+        lambda o, b: _M(b.ttb.tucker_als, o.X, o.rank, init=o.init, maxiters=1, printitn=1), shapes=ALG1)
+    reg(c, "cp_apr", "mu,init=ktensor,maxiters=1,printitn=1", lambda b: dict(X=b.S(), init=b.K()),
+        lambda o, b: _M(b.ttb.cp_apr, o.X, 2, algorithm="mu", init=o.init, maxiters=1, printitn=1, printinneritn=1, maxinneriters=1), shapes=ALG1)
+    reg(c, "cp_apr", "pdnr,init=ktensor,maxiters=1,printitn=1", lambda b: dict(X=b.S(), init=b.K()),
+        lambda o, b: _M(b.ttb.cp_apr, o.X, 2, algorithm="pdnr", init=o.init, maxiters=1, printitn=1, printinneritn=1, maxinneriters=1), shapes=ALG1)
+    reg(c, "hosvd", "tol,verbosity=1", lambda b: dict(X=b.T()), lambda o, b: b.ttb.hosvd(o.X, 1e-4, verbosity=1), shapes=ALG1)
+
+    def gcp_s(b, X, init, **okw):
+        from pyttb.gcp.optimizers import SGD
+        from pyttb.gcp.fg_setup import Objectives
+        return _M(b.ttb.gcp_opt, X, 2, Objectives.GAUSSIAN, SGD(printitn=0, **okw), init=init, printitn=0)
+    reg(c, "gcp_opt", "sgd,max_fails=0,init=list", lambda b: dict(X=b.T(), init=b.fm()), lambda o, b: gcp_s(b, o.X, o.init, max_iters=2, epoch_iters=1, max_fails=0), shapes=ALG1)
+    reg(c, "gcp_opt", "sgd,max_iters=1,epoch_iters=1,init=ktensor-copy", lambda b: dict(X=b.T(), init=b.fm()), lambda o, b: gcp_s(b, o.X, o.init, max_iters=1, epoch_iters=1), shapes=ALG1)
+    # no-copy constructors: one factor C-ordered, the others F-ordered; F-contiguous window onto a C-ordered base
+    def mixed(b):
+        f = [np.asfortranarray(x) for x in b.fm()]
+        f[0] = np.ascontiguousarray(f[0])
+        return f
+    reg("ktensor", "__init__", "copy=False,mixed-layouts", lambda b: dict(f=mixed(b), w=np.array([2.0, 3.0])), lambda o, b: b.ttb.ktensor(o.f, o.w, copy=False),
+        kind="nocopy", allow=same_pos(weights="w", factor_matrices="f"), layouts=False, shapes=NOSINGLE)
+    reg("ktensor", "__init__", "copy=False,all-F", lambda b: dict(f=[np.asfortranarray(x) for x in b.fm()], w=np.array([2.0, 3.0])), lambda o, b: b.ttb.ktensor(o.f, o.w, copy=False),
+        kind="nocopy", allow=same_pos(weights="w", factor_matrices="f"), layouts=False)
+    reg("tensor", "__init__", "copy=False,F-window-on-C-base", lambda b: dict(d=np.ascontiguousarray(np.transpose(b.arr(), range(b.N)[::-1])).T), lambda o, b: b.ttb.tensor(o.d, copy=False),
+        kind="nocopy", allow=same_pos(data="d"), layouts=False)
+    reg("tensor", "__init__", "copy=True,F-window-on-C-base", lambda b: dict(d=np.ascontiguousarray(np.transpose(b.arr(), range(b.N)[::-1])).T), lambda o, b: b.ttb.tensor(o.d, copy=True), layouts=False)
+    reg("tensor", "__init__", "copy=False,sliced-window", lambda b: dict(d=np.asfortranarray(np.concatenate([b.arr(), b.arr(1)], axis=b.N - 1))[..., :b.shape[-1]]), lambda o, b: b.ttb.tensor(o.d, copy=False),
+        kind="nocopy", allow=same_pos(data="d"), layouts=False)
+    reg("tenmat", "__init__", "copy=False,C-order", lambda b: dict(d=np.ascontiguousarray(b.arr().reshape((b.shape[0], b.n // b.shape[0]), order="F")), r=np.array([0]), cd=np.arange(1, b.N)),
+        lambda o, b: b.ttb.tenmat(o.d, o.r, o.cd, b.shape, copy=False), kind="nocopy", allow=same_pos(data="d"), layouts=False, shapes=NOSINGLE)
+
+
+_corner_table()
+
+
+# ---- wave 3: "the receiver already satisfies the post-condition" for idempotent-looking operations (remaining ones;
+#      symmetrize / normalize / arrange / permute / reshape / squeeze / to_sptensor / full / squash / mask are in _switch_table)
+def _idempotent_table():
+    I = dict(kind="inplace", recv="X")
+
+    def norm0(b):
+        K = b.K()
+        K.normalize(0)
+        return K
+    c = "ktensor"
+    reg(c, "normalize", "weight_factor=int,second-time", lambda b: dict(X=norm0(b)), lambda o: o.X.normalize(0), **I)
+    reg(c, "normalize", "weight_factor=all,second-time", lambda b: (lambda K: (K.normalize("all"), dict(X=K))[1])(b.K()), lambda o: o.X.normalize("all"), **I)
+    reg(c, "fixsigns", "other,already-aligned", lambda b: dict(X=b.K(), Y=b.K()), lambda o: o.X.fixsigns(o.Y), **I)
+    reg(c, "fixsigns", "second-time", lambda b: (lambda K: (K.fixsigns(), dict(X=K))[1])(b.ttb.ktensor([-f for f in b.fm()], np.array([2.0, 3.0]))), lambda o: o.X.fixsigns(), **I)
+    reg(c, "arrange", "second-time", lambda b: (lambda K: (K.arrange(), dict(X=K))[1])(b.K()), lambda o: o.X.arrange(), **I)
+    reg(c, "redistribute", "second-time", lambda b: (lambda K: (K.redistribute(0), dict(X=K))[1])(b.K()), lambda o: o.X.redistribute(0), **I)
+    reg(c, "mask", "all-ones", lambda b: dict(X=b.K(), W=b.ttb.tenones(b.shape)), lambda o: o.X.mask(o.W))
+    reg(c, "to_tensor", "single-component", lambda b: dict(X=b.K(R=1)), lambda o: o.X.to_tensor())
+    reg(c, "double", "single-component", lambda b: dict(X=b.K(R=1)), lambda o: o.X.double())
+    reg("ttensor", "to_tensor", "identity-factors", lambda b: dict(X=b.ttb.ttensor(b.T(), [np.eye(s) for s in b.shape])), lambda o: o.X.to_tensor())
+    reg("ttensor", "double", "identity-factors", lambda b: dict(X=b.ttb.ttensor(b.T(), [np.eye(s) for s in b.shape])), lambda o: o.X.double())
+    reg("ttensor", "reconstruct", "identity-factors", lambda b: dict(X=b.ttb.ttensor(b.T(), [np.eye(s) for s in b.shape])), lambda o: o.X.reconstruct())
+    reg("sumtensor", "double", "single-dense-part", lambda b: dict(X=b.ttb.sumtensor([b.T()])), lambda o: o.X.double())
+    reg("tensor", "double", "then-write-result", X("T"), lambda o: (lambda a: (a.__setitem__((0,) * a.ndim, 99.0), a)[1])(o.X.double()))
+    reg("tensor", "tenfun", "unary,np.positive-handle", X("T"), lambda o: o.X.tenfun(lambda x: np.positive(x)))
+    reg("tensor", "tenfun_unary", "np.asarray-handle", X("T"), lambda o: o.X.tenfun_unary(np.asarray), kind="nocopy")     # the handle returns its input
+    reg("sptensor", "ones", "values-already-one", lambda b: dict(X=b.S().ones()), lambda o: o.X.ones())
+    reg("sptensor", "elemfun", "np.positive", X("S"), lambda o: o.X.elemfun(np.positive))
+    reg("sptensor", "to_sptenmat", "all-rows,then-back", lambda b: dict(X=b.S(), r=np.arange(b.N)), lambda o: o.X.to_sptenmat(o.r).to_sptensor())
+    reg("tenmat", "ctranspose", "row-vector", lambda b: dict(X=b.T().to_tenmat(cdims=np.arange(b.N))), lambda o: o.X.ctranspose())
+    # algorithms whose starting point already is the solution (stops at the first convergence test)
+    ALG1 = [(2, 3, 4)]
+    kw = dict(maxiters=3, printitn=0)
+    reg("ttb", "cp_als", "init=ktensor,data=init.full()(already-solved)", lambda b: dict(X=b.K().full(), init=b.K()), lambda o, b: _M(b.ttb.cp_als, o.X, 2, init=o.init, **kw), shapes=ALG1)
+    reg("ttb", "tucker_als", "init=list,data=model.full()(already-solved)", lambda b: (lambda H: dict(X=H.full(), rank=np.array(b.ranks()), init=[f.copy() for f in H.factor_matrices]))(b.ttb.hosvd(b.T(), 1e-4, verbosity=0, ranks=b.ranks())),
+        lambda o, b: _M(b.ttb.tucker_als, o.X, o.rank, init=o.init, **kw), shapes=ALG1)
+
+    def gcp_l(b, X, init):
+        from pyttb.gcp.optimizers import LBFGSB
+        from pyttb.gcp.fg_setup import Objectives
+        return _M(b.ttb.gcp_opt, X, 2, Objectives.GAUSSIAN, LBFGSB(maxiter=3, iprint=-1), init=init, printitn=0)
+    reg("ttb", "gcp_opt", "lbfgsb,init=list,data=init.full()(already-solved)", lambda b: dict(X=b.ttb.ktensor(b.fm()).full(), init=b.fm()), lambda o, b: gcp_l(b, o.X, o.init), shapes=ALG1)
+    reg("ttb", "hosvd", "full-ranks", lambda b: dict(X=b.T(), ranks=list(b.shape)), lambda o, b: b.ttb.hosvd(o.X, 1e-4, verbosity=0, ranks=o.ranks), shapes=ALG1)
+
+
+_idempotent_table()
+
 #TABLE-SECTIONS
 
 
@@ -1047,6 +1464,9 @@ def gen_cases(rng, tier):
             if e["kind"] == "skip":
                 continue
             shapes = list(e["shapes"] or SHAPES)
+            if not big and e["shapes"] is None and (e["pclass"].startswith("after-") or ",after-" in e["pclass"] or e["pclass"].startswith("of-")
+                                                    or "factor-assigned" in e["pclass"]):
+                shapes = shapes[:1]        # quick tier: the history rows on one shape (all shapes in thorough)
             if big and e["tshapes"]:
                 shapes += SHAPES_THOROUGH
             seeds = [0] + ([rng.randrange(1, 100000) for _ in range(4)] if big else [])
@@ -1054,6 +1474,14 @@ def gen_cases(rng, tier):
                 for sd in seeds:
                     nt = e["kind"] in ("pure", "inplace", "nocopy") and _has_operand_array(e, shp, sd)
                     cases.append(Case(f"{ns}.{name}", {"pclass": e["pclass"], "shape": list(shp), "seed": sd, "kind": e["kind"]}, nt))
+                    # the same row with every caller-chosen array in another memory layout (C / F / non-contiguous view)
+                    if nt and sd == 0 and e["layouts"] and (big or (shp in LAYOUT_SHAPES if e["shapes"] is None else shp == shapes[0])):
+                        for lay in U.LAYOUTS:
+                            cases.append(Case(f"{ns}.{name}", {"pclass": e["pclass"], "shape": list(shp), "seed": sd, "kind": e["kind"],
+                                                               "layout": lay}, True))
+    # tie of the hand transliteration in Model/C05View.v to the current source: sharing skeleton of every modelled function
+    for key in SK.FUNCTIONS:
+        cases.append(Case("model-tie", {"fn": SK.keyname(key)}, False))
     # table entries whose name no longer exists are reported too (stale table = the surface changed)
     have = set(surface)
     for key in TABLE:
@@ -1082,6 +1510,16 @@ def run_impl(c):
     logging.disable(logging.CRITICAL)
     if c.op in ("unlisted", "stale"):
         return {"unlisted": True}
+    if c.op == "model-tie":
+        key = next(k for k in SK.FUNCTIONS if SK.keyname(k) == c.args["fn"])
+        try:
+            cur = SK.current(key)
+        except Exception as ex:
+            return {"exc": type(ex).__name__, "msg": str(ex)[:300]}
+        exp = SK.EXPECTED.get(c.args["fn"])
+        return {"tie": cur == exp, "skeleton": cur, "expected": exp,
+                "note": "sharing-relevant steps (copies, re-layouts, reshapes, constructor copy flags, returns) of a function "
+                        "transliterated in Model/C05View.v differ from the ones the model was written from: revisit the model"}
     e = find_entry(c)
     if e is None:
         return {"exc": "NoEntry"}
@@ -1089,15 +1527,36 @@ def run_impl(c):
     np.random.seed(12345)
     import contextlib
     import io
+    layout = c.args.get("layout")
+
+    def build():
+        ops = AD(e["build"](b))
+        if layout:
+            for k in list(ops):
+                ops[k] = U.relayout(np, ops[k], layout)
+        return ops
     try:
         with contextlib.redirect_stdout(io.StringIO()):
-            o = U.measure(np, lambda: AD(e["build"](b)), lambda ops: _invoke(e["call"], ops, b),
-                          receiver=e["recv"])
+            o = U.measure(np, build, lambda ops: _invoke(e["call"], ops, b), receiver=e["recv"])
     except Exception as ex:
         import traceback
         return {"exc": type(ex).__name__, "msg": str(ex)[:300], "tb": traceback.format_exc()[-600:]}
     o["kind"] = e["kind"]
     o["recv"] = e["recv"]
+    if (c.op, ) and c.op in MODELLED:
+        try:      # operand descriptors for the view model: (shape, element strides) of every operand array, small int operands
+            ops3 = build()
+            o["desc"] = {p_: [list(a.shape), [int(st // a.itemsize) for st in a.strides]]
+                         for p_, a in U.arrays_of(np, list(ops3.items())) if a.itemsize and all(st % a.itemsize == 0 for st in a.strides)}
+            o["ivals"] = {k: [int(x) for x in np.asarray(v).ravel()] for k, v in ops3.items()
+                          if isinstance(v, (list, np.ndarray)) and np.asarray(v).dtype.kind in "iu" and np.asarray(v).size <= 8}
+            Xk = ops3.get("X")
+            if type(Xk).__name__ == "ktensor":
+                o["unitw"] = bool(np.array_equal(Xk.weights, np.ones(Xk.weights.shape)))
+        except Exception:
+            pass
+    # no-copy rows: sharing beyond what the documentation of the construction permits
+    o["shared_extra"] = [pr_po for pr_po in o["shared"] if e["allow"] is not None and not e["allow"](pr_po[0], pr_po[1])]
     return o
 
 
@@ -1109,7 +1568,7 @@ def bits(o):
     """(unchanged, disjoint, vis_result, vis_operand) of an observation; receiver paths excluded for in-place ops"""
     recv = o.get("recv")
     changed = [p for p in o["changed"] if not (recv and _under(p, recv))]
-    return (not changed, not o["shared"], bool(o["vis_result"]), bool(o["vis_operand"]))
+    return (not changed, not o["shared"], bool(o["vis_result"]), bool(o["vis_operand"]), not o.get("shared_extra"))
 
 
 KIND_COQ = {"pure": "KPure", "scalar": "KPure", "property": "KPure", "inplace": "KInplace", "nocopy": "KNoCopy", "attr": "KNoCopy"}
@@ -1118,16 +1577,22 @@ KIND_COQ = {"pure": "KPure", "scalar": "KPure", "property": "KPure", "inplace": 
 def coq_check(c, o):
     if c.op in ("unlisted", "stale") or "exc" in o:
         return "false"
-    u, d, vr, vo = bits(o)
+    if c.op == "model-tie":
+        return "true" if o.get("tie") else "false"
+    u, d, vr, vo, ex = bits(o)
     g = lambda x: "true" if x else "false"
-    return f"row_check (mkRow {KIND_COQ[o['kind']]} {g(u)} {g(d)} {g(vr)} {g(vo)})"
+    row = f"row_check (mkRow {KIND_COQ[o['kind']]} {g(u)} {g(d)} {g(vr)} {g(vo)} {g(ex)})"
+    mv = model_verdicts(c, o)
+    for expr, measured in mv:
+        row += f" && Bool.eqb ({expr}) {g(measured)}"
+    return row
 
 
 def oracle(c, o):
     """independent restatement on the raw observation (paths and digests), without the Coq table"""
     if c.op == "unlisted":
         return None          # not a property violation by itself: the table is incomplete (fail closed)
-    if c.op == "stale":
+    if c.op in ("stale", "model-tie"):
         return None
     if "exc" in o:
         return None
@@ -1144,8 +1609,196 @@ def oracle(c, o):
             msgs.append(f"in-place write through the result is visible in operand {p}")
         for p in o["vis_operand"]:
             msgs.append(f"in-place write through an operand is visible in {p}")
+    for pr, po in o.get("shared_extra", []):
+        msgs.append(f"no-copy construction shares more than documented: {pr} shares storage with {po}")
     return "; ".join(msgs[:6]) if msgs else None
 
+
+
+# ------------------------------------------------------------------------------------------------------------
+# wave 3: may-alias verdicts of the Coq view model (Model/C05View.v: transliterated return paths) vs. the measurement
+# ------------------------------------------------------------------------------------------------------------
+MODELLED = {"tensor.copy", "tensor.permute", "tensor.reshape", "tensor.squeeze", "tensor.__getitem__", "tensor.__init__",
+            "tensor.to_tenmat", "tenmat.__getitem__", "sptensor.find", "ktensor.copy", "ktensor.__init__", "ktensor.extract",
+            "ktensor.tolist", "ttb.khatrirao", "sptensor.copy", "sptensor.__init__", "tenmat.copy", "tenmat.__init__"}
+
+
+def _gl(xs):
+    return "[" + "; ".join(str(int(x)) for x in xs) + "]"
+
+
+def _arr(desc, path, bid):
+    shp, st = desc[path]
+    if any(x < 0 for x in st):
+        raise KeyError(path)
+    return f"(mkArr {bid} 0 {_gl(shp)} {_gl(st)})"
+
+
+def _pairs(o, rprefix=None, oprefix=None):
+    """measured: some result array (under rprefix) shares storage with some operand array (under oprefix)"""
+    return any(not pr.endswith("#") and not po.endswith("#") and (rprefix is None or pr.startswith(rprefix))
+               and (oprefix is None or po.startswith(oprefix)) for pr, po in o["shared"])
+
+
+def model_verdicts(c, o):
+    """[(Gallina bool expression over the view model, measured bool)] for the rows whose return path is transliterated"""
+    if c.op not in MODELLED or "desc" not in o:
+        return []
+    d, iv, pc = o["desc"], o.get("ivals", {}), c.args["pclass"]
+    shape = list(c.args["shape"])
+    N, n = len(shape), math.prod(shape)
+    try:
+        if c.op.startswith("tensor.") and c.op != "tensor.__init__":
+            if "X.data" not in d or o["kind"] == "scalar":
+                return []
+            Xshape = d["X.data"][0]
+            X, H = _arr(d, "X.data", 0), "(h0 1)"
+            one = lambda prog: [(f"aliases [{X}] [snd ({prog})]", _pairs(o, "result", "X.data"))]
+            if c.op == "tensor.copy":
+                return one(f"tensor_copy {H} {X}")
+            if c.op == "tensor.permute":
+                if "there-and-back" in pc:
+                    return []
+                p = iv.get("order") if "order" in iv else (list(range(len(Xshape))) if pc.startswith("identity") else None)
+                return one(f"tensor_permute {H} {X} {_gl(p)}") if p is not None else []
+            if c.op == "tensor.reshape":
+                if pc.startswith("same-shape") or pc.startswith("1-way"):
+                    t = Xshape
+                elif pc == "to-vector":
+                    t = [n]
+                elif pc == "to-matrix":
+                    t = [shape[0], n // shape[0]]
+                elif pc == "drop-singleton":
+                    t = [x for x in shape if x != 1]
+                elif pc == "add-singleton":
+                    t = shape + [1]
+                else:
+                    return []
+                return one(f"tensor_reshape {H} {X} {_gl(t)}")
+            if c.op == "tensor.squeeze":
+                return one(f"tensor_squeeze {H} {X}")
+            if c.op == "tensor.__getitem__":
+                sl = lambda lo, hi: f"KSlice ({lo}, {hi - lo}, 1)"
+                if pc.startswith("full-slice") or pc.startswith("whole-range-slices"):
+                    k = [sl(0, x) for x in Xshape]
+                elif pc.startswith("sub-slice"):
+                    k = [sl(0, min(2, Xshape[0]))] + [sl(0, x) for x in Xshape[1:]]
+                elif pc.startswith("int+slices"):
+                    k = ["KInt 0"] + [sl(0, x) for x in Xshape[1:]]
+                elif pc.startswith("list-in-key"):
+                    return one(f"tensor_getitem_fancy {H} {X} {_gl([2] + Xshape[1:])} []")
+                else:
+                    return []
+                return one(f"tensor_getitem_basic {H} {X} [{'; '.join(k)}]")
+            if c.op == "tensor.to_tenmat":
+                if "cyclic" in pc or "r" not in iv and "cd" not in iv and pc not in ("receiver-built-copy=False",):
+                    return []
+                NX = len(Xshape)
+                r = iv.get("r", [0] if pc == "receiver-built-copy=False" else [])
+                cd = iv.get("cd", [m for m in range(NX) if m not in r])
+                if "r" not in iv and "cd" in iv:
+                    r = [m for m in range(NX) if m not in cd]
+                dims = list(r) + list(cd)
+                rp, cp = math.prod(Xshape[m] for m in r), math.prod(Xshape[m] for m in cd)
+                cpy = "false" if pc == "copy=False" else "true"
+                return one(f"tensor_to_tenmat {H} {X} {_gl(dims)} {rp} {cp} {cpy}")
+            return []
+        if c.op == "tensor.__init__":
+            if "d" not in d:
+                return []
+            D, H = _arr(d, "d", 0), "(h0 1)"
+            t = shape if pc == "copy=True,shape" else d["d"][0]
+            cpy = "false" if pc.startswith("copy=False") else "true"
+            if not pc.startswith("copy="):
+                return []
+            return [(f"aliases [{D}] [snd (tensor_init {H} {D} {_gl(t)} {cpy})]", _pairs(o, "result", "d"))]
+        if c.op == "tenmat.__getitem__":
+            if "X.data" not in d or o["kind"] == "scalar":
+                return []
+            D, H = _arr(d, "X.data", 0), "(h0 1)"
+            rows, cols = d["X.data"][0]
+            if pc == "row":
+                prog = f"tenmat_getitem_basic {H} {D} [KInt 0; KSlice (0, {cols}, 1)]"
+            elif pc == "full-slice":
+                prog = f"tenmat_getitem_basic {H} {D} [KSlice (0, {rows}, 1); KSlice (0, {cols}, 1)]"
+            elif pc == "fancy":
+                prog = f"tenmat_getitem_fancy {H} {D} {_gl([2, cols])} []"
+            else:
+                return []
+            return [(f"aliases [{D}] [snd ({prog})]", _pairs(o, "result", "X.data"))]
+        if c.op in ("sptensor.find", "sptensor.copy"):
+            if "X.subs" not in d or "X.vals" not in d:
+                return []
+            S, Vv = _arr(d, "X.subs", 0), _arr(d, "X.vals", 1)
+            return [(f"aliases [{S}; {Vv}] (snd ({c.op.replace('.', '_')} (h0 2) {S} {Vv}))", _pairs(o, "result", "X."))]
+        if c.op == "sptensor.__init__":
+            if "s" not in d or "v" not in d or not pc.startswith("copy="):
+                return []
+            S, Vv = _arr(d, "s", 0), _arr(d, "v", 1)
+            cpy = "false" if pc.startswith("copy=False") else "true"
+            return [(f"aliases [{S}; {Vv}] (snd (sptensor_init (h0 2) {S} {Vv} {cpy}))", _pairs(o, "result", None))]
+        if c.op == "tenmat.copy":
+            if "X.data" not in d:
+                return []
+            D = _arr(d, "X.data", 0)
+            return [(f"aliases [{D}] [snd (tenmat_copy (h0 1) {D})]", _pairs(o, "result", "X.data"))]
+        if c.op == "tenmat.__init__":
+            if "d" not in d or not pc.startswith("copy="):
+                return []
+            D = _arr(d, "d", 0)
+            cpy = "false" if pc.startswith("copy=False") else "true"
+            return [(f"aliases [{D}] [snd (tenmat_init (h0 1) {D} {cpy})]", _pairs(o, "result.data", "d"))]
+        if c.op.startswith("ktensor."):
+            pre = "X." if c.op != "ktensor.__init__" else None
+            if pre:
+                fk = sorted(k for k in d if k.startswith("X.factor_matrices["))
+                if "X.weights" not in d or not fk:
+                    return []
+                W = _arr(d, "X.weights", 0)
+                F = [_arr(d, k, i + 1) for i, k in enumerate(fk)]
+                H = f"(h0 {len(F) + 1})"
+                FL = "[" + "; ".join(F) + "]"
+                meas = _pairs(o, "result", "X.")
+                if c.op == "ktensor.copy":
+                    prog = f"ktensor_copy {H} {FL} {W}"
+                elif c.op == "ktensor.extract":
+                    if pc == "none":
+                        prog = f"ktensor_copy {H} {FL} {W}"
+                    else:
+                        ncomp = len(iv["i"]) if "i" in iv else 1
+                        prog = f"ktensor_extract {H} {FL} {W} {ncomp} []"
+                elif c.op == "ktensor.tolist":
+                    if "mode" in pc:
+                        prog = f"ktensor_copy {H} {FL} {W}"
+                    else:
+                        prog = f"ktensor_tolist {H} {FL} {'true' if o.get('unitw') else 'false'}"
+                else:
+                    return []
+                return [(f"aliases ({W} :: {FL}) (snd ({prog}))", meas)]
+            # constructor
+            fk = sorted(k for k in d if k.startswith("f["))
+            if not fk:
+                return []
+            F = [_arr(d, k, i + 1) for i, k in enumerate(fk)]
+            FL = "[" + "; ".join(F) + "]"
+            H = f"(h0 {len(F) + 1})"
+            if pc.startswith("copy=False") and "w" in d:
+                W = _arr(d, "w", 0)
+                return [(f"aliases {FL} (tl (snd (ktensor_init {H} {FL} {W} false)))", _pairs(o, "result.factor_matrices", "f")),
+                        (f"aliases [{W}] [hd {W} (snd (ktensor_init {H} {FL} {W} false))]", _pairs(o, "result.weights", "w"))]
+            if pc == "copy=True" and "w" in d:
+                W = _arr(d, "w", 0)
+                return [(f"aliases ({W} :: {FL}) (snd (ktensor_init {H} {FL} {W} true))", _pairs(o, "result", None))]
+            return []
+        if c.op == "ttb.khatrirao":
+            if not pc.startswith("single-matrix"):
+                return []
+            key = "A" if "A" in d else "U[0]"
+            A = _arr(d, key, 0)
+            return [(f"aliases [{A}] [snd (khatrirao_single (h0 1) {A})]", _pairs(o, "result", None))]
+    except (KeyError, TypeError):
+        return []
+    return []
 
 TRIGGERS = {}
 WITNESSES = {}
